@@ -27,6 +27,8 @@ def enc_desc(d):
 def to_kwargs(d):
     kw = {}
     for k, v in d.items():
+        if k == 'us':
+            continue
         if k in BOOL_KEYS:
             kw[BOOL_KEYS[k]] = bool(v)
         elif k == 'md':
@@ -37,11 +39,17 @@ def to_kwargs(d):
             kw[PAIR_KEYS[k]] = [tuple(p) for p in v]
     return kw
 
-def make_context(keys):
+def make_context(keys, fallbacks=False):
     from pylatexenc import macrospec
     db = macrospec.LatexContextDb()
     db.add_context_category('c', macros=[], environments=[],
                             specials=[macrospec.SpecialsSpec(k) for k in keys])
+    if fallbacks:
+        # fallback specifications for unknown names (documented setters); they answer get_*_spec() for unknown names and
+        # have no say in what the tokenizer recognises (descriptor key 'us', not sent to the model for that reason)
+        db.set_unknown_macro_spec(macrospec.MacroSpec(''))
+        db.set_unknown_environment_spec(macrospec.EnvironmentSpec(''))
+        db.set_unknown_specials_spec(macrospec.SpecialsSpec(''))
     return db
 
 def make_ps(d, s=None):
@@ -50,7 +58,7 @@ def make_ps(d, s=None):
     kw = to_kwargs(d)
     ctx = None
     if d.get('cx', True):
-        ctx = make_context(d.get('sk', []))
+        ctx = make_context(d.get('sk', []), fallbacks=bool(d.get('us')))
     return ParsingState(s=s, latex_context=ctx, **kw)
 
 def show_tok(t):
